@@ -1,6 +1,15 @@
 (** "The normal form is a fixpoint": re-parsing the JSON marshalling of a
     pipeline yields a pipeline that marshals to the same JSON
-    (Model/Reparse.v over Model/Pipeline.v + Model/Marshal.v). *)
+    (Model/Reparse.v over Model/Pipeline.v + Model/Marshal.v).
+
+    Bottom-up ("every Marshal shape is accepted by the matching UnmarshalOrdered"):
+      gv_json_of_json, plugin_config_roundtrip, sig_roundtrip, cache_roundtrip,
+      matrix_roundtrip, plugins_roundtrip, command_roundtrip, step_roundtrip,
+      reparse_fixpoint (MAIN, under [pipeline_fix_ok]),
+      parse_result_fix_ok / parse_marshal_reparse (what Parse produces from a [doc_ok]
+      document satisfies [pipeline_fix_ok], outside three classes, each shown real by an
+      example: [no_empty_primary_with_alias], [plugin_sources_canonical],
+      [no_fallback_unknown]; unstable number tokens are excluded by [doc_ok]). *)
 From Coq Require Import String List Ascii Bool Arith Lia ZArith Permutation Sorted.
 From Coq Require Import DecimalString Decimal DecimalZ DecimalPos.
 From GP Require Import Base.Sexp Model.Gv Model.Decode Model.Kinds Model.Plugin Model.Pipeline Model.Marshal Model.Reparse Gen.Structs
